@@ -453,6 +453,10 @@ def rule_range(ck):
     lows, highs, probs = [], [], []
     for stmt, tgt, mode in closed:
         hl, val = analyse(stmt, tgt)
+        if hl is None and any(w in u(tgt.slice) for w in ('isfinite', 'isnan', 'isinf')) and const_value(stmt.value) == -1:
+            probs.append('`%s` reports every non-finite index as out of range before the open-ended clamp sees it: a value far above the last edge '
+                         '(+inf, or a finite value whose quotient overflows) belongs to the last bin' % u(stmt))
+            continue
         if hl is None:
             o.unknown('cannot interpret `%s` as integer half-lines' % u(stmt))
             break
@@ -896,6 +900,10 @@ def rule_out_of_range_reported(ck):
     ck.clause('D3 (shared C03-D1/D5: the out-of-range report is never used as an index)')
     c03.rule_mag_sentinel(ck)
     c03.rule_accumulation(ck)
+    # ... and the forecast-side observer refuses a magnitude below its first edge instead of handing the -1 on (shared C11-D3)
+    from . import c11
+    ck.clause('D3 (shared C11-D3: get_magnitude_index raises for a magnitude below the first edge)')
+    c11.rule_lookup(ck)
 
 
 RULES = [rule_kernel, rule_tolerance, rule_tolerance_flow, rule_range, rule_callsites, rule_generators, rule_pure, rule_own_magnitudes_shared, rule_precision, rule_out_of_range_reported]
